@@ -272,6 +272,8 @@ def base64_part(chk, model, hscan):
             alpha = bytes(perm)
         elif r.chance(1, 3):
             alpha = B64STD[:62] + bytes([r.choice(b"-_.!*"), r.choice(b",;:#@")])
+            if r.chance(1, 2):
+                alpha = b"./" + B64STD[52:62] + B64STD[:52]        # the crypt / bcrypt style alphabet: `.` stands for 0
         elif r.chance(1, 2):
             # an alphabet with the characters that mean something in a regular expression, and arbitrary bytes
             pool = list(b"\\^$|()[]*?{},.+}-/ \"'#") + [0x0A, 0x0D, 0x09, 0x7F, 0x80, 0xFF, 0x01] + list(range(0x30, 0x7B))
@@ -282,6 +284,13 @@ def base64_part(chk, model, hscan):
                     seen.add(c)
                     al.append(c)
             alpha = bytes(al[:64])
+        # make sure the encoded form uses an alphabet slot that holds a regexp metacharacter: append a 3-byte group with that sextet twice
+        mslots = [k for k, ch in enumerate(alpha) if ch in b".*+?|()[]{}^$\\-"]
+        if mslots and r.chance(2, 3):
+            k = r.choice(mslots)
+            v = (r.below(64) << 18) | (k << 12) | (r.below(64) << 6) | k
+            grp = bytes([(v >> 16) & 255, (v >> 8) & 255, v & 255])
+            text = (text + grp) if r.chance(1, 2) else (text[:3 * (len(text) // 3)] + grp + text[3 * (len(text) // 3):])
         # ascii / wide act on the plaintext (it is widened BEFORE being encoded), base64 / base64wide on the encoded form
         tw = r.choice(["", "", "wide", "ascii wide"])
         plaintexts = ([text] if tw != "wide" else []) + ([widen(text)] if tw else [])
@@ -304,6 +313,16 @@ def base64_part(chk, model, hscan):
                 enc = b"".join(bytes([c, 0]) for c in enc)
             junk = r.bytes(r.below(5))
             bufs.append(junk + enc + r.bytes(r.below(4)))
+        # near misses at the positions where the encoded form holds a character that means something in a regular expression (the
+        # forms are compiled as a regexp: an alphabet character that is not escaped there acts as an operator, `.` as a wildcard)
+        for lead in (b"", b"x", b"xy"):
+            enc = b64enc(alpha, lead + plaintexts[0] + b"zz").rstrip(b"=")
+            meta_pos = [j for j, ch in enumerate(enc) if ch in b".*+?|()[]{}^$\\-"]
+            if meta_pos:
+                j = r.choice(meta_pos)
+                repl = r.choice([c for c in (list(alpha) + [0x58, 0x00, 0x0A]) if c != enc[j]])
+                bufs.append(b"#" + enc + b"#" + enc[:j] + bytes([repl]) + enc[j + 1:] + b"#")
+                chk.add("b64_metachar_near_misses")
         bufs.append(b64enc(alpha, plaintexts[0]))
         bufs.append(b64enc(alpha, b"x" + plaintexts[-1]) + b64enc(alpha, b"xy" + plaintexts[0] + b"z"))
         cases.append(("b%d" % i, ["newcompiler", "add " + hx(src.encode()), "getrules", "scanner 0"] + ["scan " + hx(b) for b in bufs]))
